@@ -3661,6 +3661,11 @@ class __implementations__:
 
     @implements(numpy.choose)
     def choose(a, choices):
+        a = Array.cast(a)
+        if a.dtype == bool:
+            a = a.astype(int)
+        elif a.dtype != int:
+            raise TypeError('the index array of choose must be integer or boolean')
         a, *choices = broadcast_arrays(a, *typecast_arrays(*choices))
         return _Wrapper(evaluable.Choose, a, numpy.stack(choices, -1), shape=a.shape, dtype=choices[0].dtype)
 
